@@ -8,7 +8,7 @@
    for histories without next() it is exactly the added clauses (C07_no_next_axioms_are_added_clauses). *)
 From Coq Require Import List Arith Bool ZArith Permutation Sorted.
 From ORatio Require Import smt.SatCoreBase smt.SatCoreSpec smt.SatCore smt.Rup
-  proofs.SatCoreInv_Proofs proofs.SatCoreRun_Proofs proofs.SatCoreLog_Proofs proofs.SatCoreThm_Proofs proofs.SatCoreDb_Proofs proofs.SatCoreNoUb_Proofs proofs.SatCoreWl_Proofs proofs.SatCoreWlThm_Proofs proofs.Rup_Proofs.
+  proofs.SatCoreInv_Proofs proofs.SatCoreRun_Proofs proofs.SatCoreLog_Proofs proofs.SatCoreThm_Proofs proofs.SatCoreDb_Proofs proofs.SatCoreNoUb_Proofs proofs.SatCoreWl_Proofs proofs.SatCoreWlRun_Proofs proofs.SatCoreWlThm_Proofs proofs.SatCoreWlEx_Proofs proofs.Rup_Proofs.
 Import ListNotations.
 
 (* (i) every value reported is a consequence of the axioms, the theory and the standing decisions *)
@@ -201,8 +201,8 @@ Theorem C07_two_watched_literals_invariant_when_theories_record_no_lemma :
 Proof. exact @c07_watch_invariant. Qed.
 Print Assumptions C07_two_watched_literals_invariant_when_theories_record_no_lemma.
 
-(* for a theory that does record lemmas (v) is proved with two extra hypotheses (a lemma recorded by a theory would need a
-   level condition in the theory contract to keep the watch invariant; not attempted):
+(* for a theory that records lemmas but does NOT meet the extra clause lemmas_wl_ok of the theorems at the end of this file,
+   (v) is proved with two extra hypotheses:
      ub s = false                                  (no dangling / corrupted watch was ever produced)
      every live clause has a true literal          (what quiescent propagation over a total assignment must establish)
    Both are checked on the real implementation by tools/checks/c07.py on every quiescent total assignment it reaches
@@ -243,8 +243,10 @@ Theorem C07_no_undefined_behaviour_propositional :
 Proof. exact c07_no_ub_propositional. Qed.
 Print Assumptions C07_no_undefined_behaviour_propositional.
 
-(* (b) for every theory meeting the contract, for every history that does not call simplify_db.  What is left open is
-       exactly: simplify_db in a network whose theories have recorded lemmas. *)
+(* (b) for every theory meeting the contract, for every history that does not call simplify_db;
+   (c) for every theory meeting the contract and lemmas_wl_ok, every history: C07_no_undefined_behaviour_with_theory_lemmas
+       at the end of this file.  What is left open is exactly: simplify_db in a network whose theories record lemmas that
+       violate lemmas_wl_ok (no such theory in /repo), and backtrack_analyze_and_backjump from outside propagation. *)
 Theorem C07_no_ub_partial :
   forall (TS : Type) (T : asg -> Prop) sort thp thc (thpush thpop : TS -> TS) FUEL,
   sort_contract sort -> theory_contract T thp thc ->
@@ -259,3 +261,91 @@ Theorem C07_ub_is_sticky :
   ub s = true -> ub (run sort thp thc thpush thpop FUEL ops s) = true.
 Proof. exact @SatCoreUb_Proofs.run_ub. Qed.
 Print Assumptions C07_ub_is_sticky.
+
+(* ---------------------------------------------------------------------------------------------- *)
+(* THEORIES THAT RECORD LEMMAS AND REPORT CONFLICTS.  The two-watched-literal invariant, (v) and the absence of undefined
+   behaviour hold for every theory meeting theory_contract (lemmas T-valid, over existing variables, the other literals false;
+   conflicts T-valid, all literals false, one of them of the current level; propagate(p) is asked about a literal p of the
+   current level - it is the literal being dequeued) and ONE extra, named clause, lemmas_wl_ok (proofs/SatCoreWlRun_Proofs.v), on
+   the lemmas recorded during one call of propagate(p):
+     - the first literal is unassigned when the lemma is recorded      [sat_core::record: assert(value(lits[0]) == Undefined)],
+       so the lemmas of one call propagate literals of different variables;
+     - a lemma mentions a variable once                                [clause::new_clause watches lits[0], lits[1]];
+     - one of the false literals was falsified at the current level    [in theory::propagate(p): !p; after the level-sort of
+       sat_core::record it is lits[1], the second watch - otherwise the lemma would be unit below the current level without
+       having been propagated there].
+   The invariant survives theory::record (watches on lits[0], lits[1] after the sort: WL_record / WL_lemmas) and the
+   theory-conflict backjump (queue flushed: WL_flush; analysis: WL_abr).  check() answering false because a theory conflict
+   was reported with no decision standing counts as "definitely inconsistent" (dead_after / root_dead of smt/SatCore.v).
+   Not covered by the histories of these theorems: theory::backtrack_analyze_and_backjump called from OUTSIDE propagation
+   (ext_conflict in the model): exact differential + K2 judge only (probe theory of harness/h_sat.cpp). *)
+Theorem C07_no_undefined_behaviour_with_theory_lemmas :
+  forall (TS : Type) (T : asg -> Prop) sort thp thc (thpush thpop : TS -> TS) FUEL,
+  sort_contract sort ->
+  (forall (key : lit -> nat) l, StronglySorted (fun a b => key b <= key a) (sort (fun a b => Nat.ltb (key b) (key a)) l)) ->
+  theory_contract T thp thc ->
+  (forall (s : @state TS) p, Inv T s -> In p (trail s) -> nth (fst p) (level s) 0 = decision_level s ->
+     lemmas_wl_ok s (snd (fst (thp (thst s) (assigns s) (decision_level s) p)))) ->
+  forall ops ts, run_ok sort thp thc thpush thpop FUEL ops (init ts) = true ->
+  ub (run sort thp thc thpush thpop FUEL ops (init ts)) = false.
+Proof. exact @c07_no_ub_lemmas. Qed.
+Print Assumptions C07_no_undefined_behaviour_with_theory_lemmas.
+
+Theorem C07_two_watched_literals_invariant_with_theory_lemmas :
+  forall (TS : Type) (T : asg -> Prop) sort thp thc (thpush thpop : TS -> TS) FUEL,
+  sort_contract sort ->
+  (forall (key : lit -> nat) l, StronglySorted (fun a b => key b <= key a) (sort (fun a b => Nat.ltb (key b) (key a)) l)) ->
+  theory_contract T thp thc ->
+  (forall (s : @state TS) p, Inv T s -> In p (trail s) -> nth (fst p) (level s) 0 = decision_level s ->
+     lemmas_wl_ok s (snd (fst (thp (thst s) (assigns s) (decision_level s) p)))) ->
+  forall ops o ts, run_ok sort thp thc thpush thpop FUEL (ops ++ [o]) (init ts) = true ->
+  WL (decision_level (run sort thp thc thpush thpop FUEL ops (init ts))) None (run sort thp thc thpush thpop FUEL ops (init ts)).
+Proof. exact @c07_watch_invariant_lemmas. Qed.
+Print Assumptions C07_two_watched_literals_invariant_with_theory_lemmas.
+
+Theorem C07_total_assignment_satisfies_added_clauses_with_theory_lemmas :
+  forall (TS : Type) (T : asg -> Prop) sort thp thc (thpush thpop : TS -> TS) FUEL,
+  sort_contract sort ->
+  (forall (key : lit -> nat) l, StronglySorted (fun a b => key b <= key a) (sort (fun a b => Nat.ltb (key b) (key a)) l)) ->
+  theory_contract T thp thc ->
+  (forall (s : @state TS) p, Inv T s -> In p (trail s) -> nth (fst p) (level s) 0 = decision_level s ->
+     lemmas_wl_ok s (snd (fst (thp (thst s) (assigns s) (decision_level s) p)))) ->
+  forall ops o ts, run_ok sort thp thc thpush thpop FUEL (ops ++ [o]) (init ts) = true ->
+  prop_q (run sort thp thc thpush thpop FUEL ops (init ts)) = [] ->
+  (forall v, v < nvars (run sort thp thc thpush thpop FUEL ops (init ts)) ->
+             value_var (run sort thp thc thpush thpop FUEL ops (init ts)) v <> LU) ->
+  forall c, In c (added (log (run sort thp thc thpush thpop FUEL ops (init ts)))) ->
+  sat_clause (asg_of (run sort thp thc thpush thpop FUEL ops (init ts))) c.
+Proof. exact @c07_total_assignment_lemmas. Qed.
+Print Assumptions C07_total_assignment_satisfies_added_clauses_with_theory_lemmas.
+
+(* non-vacuity: the theory "x1 -> x2" (lemma (x2 \/ !x1) when x1 is propagated and x2 is open, the same clause as a conflict when
+   x2 is false) meets theory_contract and the extra clause ... *)
+Theorem C07_a_theory_with_lemmas_and_conflicts_meets_the_extended_contract :
+  theory_contract imp_T imp_thp imp_thc /\
+  (forall (s : @state unit) p, Inv imp_T s -> In p (trail s) -> nth (fst p) (level s) 0 = decision_level s ->
+     lemmas_wl_ok s (snd (fst (imp_thp (thst s) (assigns s) (decision_level s) p)))).
+Proof. exact (conj imp_contract imp_lemmas_wl). Qed.
+Print Assumptions C07_a_theory_with_lemmas_and_conflicts_meets_the_extended_contract.
+(* ... it does record the lemma and report the conflict ... *)
+Example C07_the_theory_records_a_lemma :
+  let ops := [ONewVar; ONewVar; ONewVar; ONewClause [(2, false); (3, true)]; OPropagate; OAssume (1, true)] in
+  let s := run (@isort lit) imp_thp imp_thc (fun u => u) (fun u => u) 100 ops (init tt) in
+  run_ok (@isort lit) imp_thp imp_thc (fun u => u) (fun u => u) 100 ops (init tt) = true /\
+  In (2, imp_clause) (log s) /\ value_lit s (2, true) = LT /\ value_lit s (3, true) = LT /\ ub s = false.
+Proof. exact imp_records_a_lemma. Qed.
+Example C07_the_theory_reports_a_conflict :
+  let ops := [ONewVar; ONewVar; ONewVar; ONewClause [(2, false)]; OPropagate; OAssume (1, true)] in
+  let s := run (@isort lit) imp_thp imp_thc (fun u => u) (fun u => u) 100 ops (init tt) in
+  run_ok (@isort lit) imp_thp imp_thc (fun u => u) (fun u => u) 100 ops (init tt) = true /\
+  In (3, imp_clause) (log s) /\ In (0, [(1, false)]) (log s) /\ value_lit s (1, true) = LF /\ decision_level s = 0 /\ ub s = false.
+Proof. exact imp_reports_a_conflict. Qed.
+(* ... and the scripted probe theory of the differential records lemmas and conflicts on a concrete history *)
+Example C07_the_probe_theory_records_a_lemma_and_reports_a_conflict :
+  let ts := [(1, [(2, true); (1, false)]); (0, [(3, false); (1, false)])] in
+  let ops := [ONewVar; ONewVar; ONewVar; OAssume (1, true); OPop; OAssume (3, true); OAssume (1, true)] in
+  let s := run (@isort lit) pr_propagate pr_check pr_id pr_id 100 ops (init ts) in
+  run_ok (@isort lit) pr_propagate pr_check pr_id pr_id 100 ops (init ts) = true /\
+  In (2, [(2, true); (1, false)]) (log s) /\ In (3, [(3, false); (1, false)]) (log s) /\
+  In (0, [(1, false); (3, false)]) (log s) /\ value_lit s (1, true) = LF /\ decision_level s = 1 /\ ub s = false.
+Proof. exact probe_records_a_lemma_and_reports_a_conflict. Qed.
